@@ -683,6 +683,9 @@ class World(object):
             # as the place that misses it)
             names = ("line", "additional_offsets", "args", "docstring", "type", "relative", "_index_override", "line_number", "arg", "freevars")
             hits = [c for c in conts if isinstance(c, dict) and any(k in c for k in names)]
+            small = [c for c in hits if set(c.keys()) <= set(("line", "additional_offsets"))]
+            if small and op["dropkey"] % 2 == 0:
+                hits = small  # the trailing-line object: few keys, each optional in the schema
             if hits:
                 c = hits[op["dropkey"] % len(hits)]
                 ks = [k for k in names if k in c]
